@@ -50,6 +50,7 @@ public:
     lsense = !lsense;
     if (--count == 0) {
       count = num;
+      GALOIS_VERIF_POINT(BAR_COUNTING_LAST);
       sense = lsense;
     } else {
       while (sense != lsense) {
